@@ -116,8 +116,8 @@ def multisig_gray(spk):
     t = tokenize(spk)
     if t is None or len(t) < 3 or t[-1] != ('op', 0xae):
         return False
-    if is_multisig(spk):
-        return any(len(k[2]) not in (33, 65) for k in t[1:-2])
+    # (no label is left open any more: since the repair of section 13 the code implements the statement's structural rule - any
+    # push counts as a key - and the checks hold it to that)
     return False
 
 
